@@ -11,6 +11,7 @@
  *                           z (name with an embedded NUL)
  *        W uv_write of one byte, H uv_shutdown, G uv_read_start (only with a descriptor, no connect
  *        pending, not closing; no W/H after H or G; their callbacks do nothing)
+ *        t uv_try_write (uv_try_write2 on pipes) of one byte, only while a connect is pending
  *        C uv_close   R uv_run(NOWAIT)
  *   script: s<0|errno> per socket() made inside a connect call; p|e<errno> per connect();
  *           gp|g<errno> per getsockopt(SO_ERROR) (gp: ask the kernel)
@@ -129,13 +130,18 @@ int __wrap_epoll_pwait(int epfd, struct epoll_event* ev, int max, int timeout, c
   return n;
 }
 
+static void pending_write_seen(int fd);
 ssize_t __wrap_sendmsg(int fd, const struct msghdr* m, int flags) {
-  ssize_t r = __real_sendmsg(fd, m, flags); int e = errno;
+  ssize_t r; int e;
+  pending_write_seen(fd);
+  r = __real_sendmsg(fd, m, flags); e = errno;
   if (w_fd >= 0 && fd == w_fd && !w_logged) { w_logged = 1; fprintf(wlog, "%ld", r < 0 ? (long) -e : (long) r); }
   errno = e; return r;
 }
 ssize_t __wrap_write(int fd, const void* b, size_t n) {
-  ssize_t r = __real_write(fd, b, n); int e = errno;
+  ssize_t r; int e;
+  pending_write_seen(fd);
+  r = __real_write(fd, b, n); e = errno;
   if (w_fd >= 0 && fd == w_fd && !w_logged) { w_logged = 1; fprintf(wlog, "%ld", r < 0 ? (long) -e : (long) r); }
   errno = e; return r;
 }
@@ -185,6 +191,14 @@ static void aux_read_cb(uv_stream_t* st, ssize_t n, const uv_buf_t* b) { (void) 
 static int aux_allowed(int need_idle) {
   uv_os_fd_t fd = -1;
   return !g_closing && uv_fileno(&h.handle, &fd) == 0 && (!need_idle || h.stream.connect_req == NULL);
+}
+/* no write(2)/sendmsg(2) may be issued on the descriptor while its connect is outstanding (it could
+ * consume the socket's pending error) */
+static void pending_write_seen(int fd) {
+  uv_os_fd_t hfd = -1;
+  if (!g_active || g_quiet || g_closing) return;
+  if (uv_fileno(&h.handle, &hfd) != 0 || hfd != fd) return;
+  if (h.stream.connect_req != NULL) printf("!write-while-connecting ");
 }
 static void close_cb(uv_handle_t* hd) { (void) hd; if (!g_quiet) printf("x "); }
 static void prep_cb(uv_prepare_t* p) { (void) p; }
@@ -285,6 +299,13 @@ static void do_ops(char* ops, int in_cb) {
         uv_shutdown_t* sh = malloc(sizeof *sh);
         g_now = 1;
         if (uv_shutdown(sh, &h.stream, aux_shutdown_cb) == 0) aux_out++; else free(sh);
+      }
+      break;
+    case 't':      /* uv_try_write / uv_try_write2 of one byte, only while a connect is pending */
+      if (aux_allowed(0) && h.stream.connect_req != NULL) {
+        static char tb = 't'; uv_buf_t b = uv_buf_init(&tb, 1);
+        int tr = g_kind == 'p' ? uv_try_write2(&h.stream, &b, 1, NULL) : uv_try_write(&h.stream, &b, 1);
+        printf("t%d ", tr);
       }
       break;
     case 'G':
